@@ -166,8 +166,8 @@ def segToken (sb : MediaSegmentBuilder) (tok : Str) : Option (Res MediaSegmentBu
       | _, _ => none
     else if k == "uri".toList then (hexArg? v).map fun u => .ok { sb with uri := some u }
     else if k == "num".toList then
-      if v == "none".toList then some (.ok { sb with number := none, explicit_number := some false })
-      else (parseNat? 64 v).map fun n => .ok { sb with number := some n, explicit_number := some true }
+      if v == "none".toList then some (.ok (sb.setNumber none))
+      else (parseNat? 64 v).map fun n => .ok (sb.setNumber (some n))
     else if k == "br".toList then (scriptRange? v).map fun r => .ok { sb with byte_range := some r }
     else if k == "disc".toList then (if v == ['1'] then some (.ok { sb with has_discontinuity := some true }) else none)
     else if k == "pdt".toList then (hexArg? v).map fun t => .ok { sb with program_date_time := some ⟨t⟩ }
